@@ -17,6 +17,8 @@ as `n` followed by their rows (row-major); `P1`, `P2` carry the ranks `1..n` exa
                                   sorted lexicographically | `err …` as above
 * `irv_closed n P1 P2 V1 V2`    → `ok r w_0 … w_{r-1} c idx…` — `rotation_weight` of every rotation, then the
                                   chosen rotation indices sorted | `err …` as above | `err flow`
+* `irv_closedsub r succs rots n V1 V2` → `ok w_0 … w_{r-1} c idx…` — `find_maximum_weight_closed_subset` on an arbitrary
+                                  poset graph (successor lists) and rotation list | `err flow`
 * `irv n P1 P2 V1 V2`           → `ok n (m w)*n` — the answer of `Irving.scf(zero_indexed=True)` sorted by man
                                   | `err profile` (input rejected by the `check_…` functions / shape asserts)
                                   | `err assert` (one of the three asserts after Gale–Shapley)
@@ -108,6 +110,22 @@ def opIrvClosed : P String := do
       pure (joinS ("ok" :: toString rots.length ::
         (rots.map (fun r => toString (Irving.rotationWeight V1 V2 r)) ++ showNatList C)))
 
+/-- `Irving.find_maximum_weight_closed_subset(P_prime, rotations, V1, V2)` on ANY poset graph and rotation list (not only the
+ones discovered from a marriage instance): `irv_closedsub r (k succ*k)*r (len (m w)*len)*r n V1 V2` -/
+def opIrvClosedSub : P String := do
+  let r ← nat
+  let succs ← rep (list nat) r
+  let rots ← rep (list (do let a ← nat; let b ← nat; pure (a, b))) r
+  let n ← nat
+  let V1 ← matrix int n n
+  let V2 ← matrix int n n
+  eol
+  match closedSubset succs rots V1 V2 with
+  | .error _ => pure "err flow"
+  | .ok C =>
+    let C := sortNat C
+    pure (joinS ("ok" :: (rots.map (fun r => toString (Irving.rotationWeight V1 V2 r)) ++ showNatList C)))
+
 def showIrv : Except String (List (Nat × Nat)) → String
   | .error e => s!"err {e}"
   | .ok M => let M := sortPairs M; joinS ("ok" :: toString M.length :: showPairs M)
@@ -132,6 +150,7 @@ def dispatchIrving : String → Option (P String)
   | "irv_rotations" => some opIrvRotations
   | "irv_poset" => some opIrvPoset
   | "irv_closed" => some opIrvClosed
+  | "irv_closedsub" => some opIrvClosedSub
   | "irv" => some opIrv
   | "irv_raw" => some opIrvRaw
   | _ => none
